@@ -356,6 +356,7 @@ def build_unit(unit, outdir):
     em = Emitted()
     em.add("// GENERATED by /verif/lib/vx.py from %s -- do not edit; exec text is copied from the source tree\n" % REPO)
     em.add("#![allow(unused_imports, unused_variables, dead_code, unused_mut, unused_parens, unused_braces, non_snake_case)]\n")
+    em.add("#![feature(allocator_api)]\n")
     em.add("use vstd::prelude::*;\nuse vstd::std_specs::cmp::*;\nverus! {\n\n")
     for part in unit.parts:
         if part[0] == "text":
